@@ -19,16 +19,16 @@ type crashSentinel struct{}
 
 type CrashWorld struct {
 	*StoreWorld
-	prog      *Program
-	stepStart []int // disk op count at the start of each step
-	stepIdx   int
-	fired     map[int]bool
-	pending   *Fault // crash requested by the fault plan, to be carried out
-	gen       int
-	base      string
-	totalOps  int // disk ops over all incarnations
-	opsBase   int
-	restarts  int
+	prog       *Program
+	stepStart  []int // disk op count at the start of each step
+	stepIdx    int
+	fired      map[int]bool
+	pending    *Fault // crash requested by the fault plan, to be carried out
+	gen        int
+	base       string
+	totalOps   int // disk ops over all incarnations
+	opsBase    int
+	restarts   int
 	crashAgain bool
 	faultsOff  bool
 }
@@ -467,8 +467,8 @@ func init() {
 		RealStub: map[string]string{
 			"queue.SQLiteStore + modernc SQLite (pager, WAL, recovery)": "real",
 			"disk durability": "simulated: shim VFS over the real unix VFS; fsync modelled (shadow + unsynced write list), create/delete/truncate durable at once",
-			"clock": "simulated",
-			"process death": "simulated: disk goes dead at the crash point, a fresh store is opened on the post-crash image (kill: all writes; power loss: seeded subset of unsynced writes, torn at 512 B)",
+			"clock":           "simulated",
+			"process death":   "simulated: disk goes dead at the crash point, a fresh store is opened on the post-crash image (kill: all writes; power loss: seeded subset of unsynced writes, torn at 512 B)",
 		},
 		Quick: 2500, Thorough: 150000,
 	})
